@@ -696,7 +696,10 @@ func (g *DependencyGraph) CalculateDepths() {
 		for _, depKey := range current.Dependents {
 			if dep, exists := g.nodes[depKey]; exists {
 				newDepth := current.Depth + 1
-				if dep.Depth < newDepth {
+
+				// A dependency chain without repetition has at most len(g.nodes)-1 steps: a larger depth can only come
+				// from a cycle, along which the relaxation would never end
+				if dep.Depth < newDepth && newDepth < len(g.nodes) {
 					dep.Depth = newDepth
 					queue = append(queue, dep)
 				}
